@@ -446,3 +446,10 @@ def run(prog: Program, res: Result) -> None:  # noqa: PLR0912, PLR0915
     from checks.C17 import check_line_searches
 
     check_line_searches(prog, res, "C15.R8")
+
+
+    # ------------------------------------------------------------------ R9 extraction never fails: locals are bound before use
+    res.rule("C15.R9", "extraction never fails on a template that parses: in messages.py and in every message()/messages() method each local is bound on every path before it is read (definite-assignment dataflow; shared with C02.R7)")
+    from checks.shared import check_definite_assignment
+
+    check_definite_assignment(prog, res, "C15.R9", scope="extraction")
